@@ -10,8 +10,17 @@ fn ilist(rng: &mut Rng, n: usize) -> String {
 }
 
 /// One block of forms; `u` is a unique suffix for global names.
+pub const TEMPLATES: usize = 26;
+
 pub fn block(rng: &mut Rng, u: usize, tags: &mut Vec<String>) -> Vec<String> {
-    let t = rng.below(26);
+    block_of(rng, u, tags, None)
+}
+
+/// `force`: the template to use (sessions enumerate the templates round-robin for their first block, so that a run of
+/// 26 sessions or more contains every template whatever the seed)
+pub fn block_of(rng: &mut Rng, u: usize, tags: &mut Vec<String>, force: Option<usize>) -> Vec<String> {
+    let drawn = rng.below(TEMPLATES);
+    let t = force.map(|f| f % TEMPLATES).unwrap_or(drawn);
     tags.push(format!("cont-t{}", t));
     let a = rng.range(1, 9);
     let b = rng.range(2, 5);
@@ -470,11 +479,16 @@ pub fn block(rng: &mut Rng, u: usize, tags: &mut Vec<String>) -> Vec<String> {
 }
 
 pub fn session(rng: &mut Rng) -> (Vec<String>, Vec<String>) {
+    session_nth(rng, None)
+}
+
+/// the `index`-th session of a run: its first block is template `index mod 26`
+pub fn session_nth(rng: &mut Rng, index: Option<usize>) -> (Vec<String>, Vec<String>) {
     let mut tags = vec![];
     let nb = 1 + rng.below(3);
     let mut forms = vec![];
     for i in 0..nb {
-        forms.extend(block(rng, i + 1, &mut tags));
+        forms.extend(block_of(rng, i + 1, &mut tags, if i == 0 { index } else { None }));
     }
     (forms, tags)
 }
